@@ -675,8 +675,15 @@ func propC07(w *World, r *Report) {
 	r.Check(strings.Contains(sz, "NewFrameLoop((config.ThermalMotion.FrameCompareGap"+cfgMotion+" + 1),"), "K5", "comparison ring holds FrameCompareGap+1 frames", w.Pos(d.Ctor.Pos()), sz)
 	checkRingResetAndOldest(w, r, "K5")
 	checkDetectorResetRings(w, r, d, k, "K5") // "earliest frame SINCE THE RESET": the detector's Reset really empties its rings
+	if mruns, err := getMotionRuns(w); err == nil {
+		checkProcessorResetResetsDetector(w, r, mruns, "K5") // ... and a camera reset reaches the detector on every path
+		checkHandleConnMarker(w, r, "K5")
+	} else {
+		r.Unknown("K5", "MotionProcessor.Reset", "-", err.Error())
+	}
 	checkRingMove(w, r, "K5")
 	checkSettingsImmutable(w, r, "K2", "ThermalMotion:TempThresh|DeltaThresh|CountThresh|FrameCompareGap|UseOneDiffOnly|WarmerOnly|DynamicThreshold", "Config:Motion") // the thresholds, gap and flags as configured
+	checkRingCapacityExact(w, r, "K5")
 }
 
 func (c *ssaConstHelper) unused() {}
